@@ -16,6 +16,7 @@ type Opts struct {
 	Edges, EdgeIdx, Nulls, Styles, Shapes, Labels, Comments, BlockStr, Arrays float64
 	Globs, Filters, Vars, Classes, Boards, Special, Near, Config, KwCase       float64
 	Dims, Icons, Links, Tooltips, Underscore, Invalid, Semis, Suspend         float64
+	HostileLabels                                                             float64  // hostile text in label/value positions even when names are plain
 	Imports                                                                   []string // importable file names (without .d2)
 }
 
@@ -160,7 +161,7 @@ func (p *pg) eol() {
 
 func (p *pg) label() string {
 	r := p.r
-	if p.o.Hostile && r.P(0.4) {
+	if (p.o.Hostile && r.P(0.4)) || r.P(p.o.HostileLabels) {
 		return Name(r, true, 20)
 	}
 	switch r.Intn(8) {
